@@ -175,12 +175,17 @@ def nucsOfBases (bs : List BaseRef) : List Nuc := bs.flatMap nucsOfBase
 def optOfParams : Option String → Opt
   | none => .nt 1
   | some p =>
+    -- `[<Float>nt]`; the designer ignores the parameter, PIL_Spec defines `no-opt` / a zero bound as "do not optimise"
     let cs := p.toList
-    -- `[<k>nt]`; the designer ignores the parameter, PIL_Spec defines `[0nt]`/`no-opt` as "do not optimise"
-    match (cs.takeWhile Char.isDigit) with
-    | [] => .nt 1
-    | ds => let n := ds.foldl (fun a c => a * 10 + (c.toNat - 48)) 0
-            if n == 0 then .noOpt else .nt n
+    let ip := cs.takeWhile Char.isDigit
+    let rest := cs.dropWhile Char.isDigit
+    let frac := match rest with | '.' :: f => f.takeWhile Char.isDigit | _ => []
+    let fracT := (frac.reverse.dropWhile (· == '0')).reverse
+    if ip.isEmpty && frac.isEmpty then .nt 1
+    else
+      let n := ip.foldl (fun a c => a * 10 + (c.toNat - 48)) 0
+      if fracT.isEmpty then (if n == 0 then .noOpt else .nt n)
+      else .other (String.ofList ((match ip.dropWhile (· == '0') with | [] => ['0'] | r => r) ++ '.' :: fracT))
 
 /-- the design a loaded PIL specification denotes (zero-length objects cannot be expressed and are omitted) -/
 def denote (s : Spec) : Design :=
